@@ -3,7 +3,7 @@ import os, sys, re, time, json, hashlib, shutil, subprocess, tempfile, atexit, c
 import concurrent.futures as cf
 import multiprocessing as mp
 import z3
-from . import core
+from . import core, models, containers
 from .core import Interp, Ctx, Panic, Unsupported, Budget, Infeasible
 
 VERIF = os.path.dirname(os.path.dirname(os.path.abspath(__file__)))
